@@ -63,6 +63,7 @@ type Exec struct {
 	typeParamObjs     map[string]*types.TypeParam
 	mapSorts          map[string]string
 	curProp           string
+	neverReadMemo     map[*types.Var]bool
 	tickDur           Term // `opt tick=<name>`: the duration that counts as one tick of the ghost clock
 	usedPC            map[*ProcContract]bool // contracts relied on at call sites (dependency closure)
 	inGoroutine       bool
@@ -292,7 +293,10 @@ func (x *Exec) stmt(st *State, fr *Frame, s ast.Stmt, k func(*State)) {
 		}
 		nv := tApp("Int", op, cur, tInt(1))
 		nv.Ty = cur.Ty
-		x.overflowCheck(st, nv, s, x.info.TypeOf(s.X))
+		if !x.neverRead(s.X) {
+			// wrap-around of a counter that nothing ever reads cannot be observed
+			x.overflowCheck(st, nv, s, x.info.TypeOf(s.X))
+		}
 		x.store(st, fr, s.X, nv)
 		k(st)
 	case *ast.ReturnStmt:
@@ -1399,4 +1403,61 @@ func firstOr(es []ast.Expr) ast.Expr {
 		return nil
 	}
 	return es[0]
+}
+
+// neverRead: e is a local variable whose only uses are ++/-- statements and assignments to
+// the blank identifier (a diagnostic counter): its value is never observed.
+func (x *Exec) neverRead(e ast.Expr) bool {
+	id, ok := ast.Unparen(e).(*ast.Ident)
+	if !ok {
+		return false
+	}
+	obj, ok := x.info.Uses[id].(*types.Var)
+	if !ok || obj.IsField() || obj.Parent() == nil || obj.Parent() == obj.Pkg().Scope() {
+		return false
+	}
+	if x.neverReadMemo == nil {
+		x.neverReadMemo = map[*types.Var]bool{}
+	}
+	if r, ok := x.neverReadMemo[obj]; ok {
+		return r
+	}
+	res := false
+	for _, f := range x.pkg.Files {
+		if f.Pos() <= obj.Pos() && obj.Pos() <= f.End() {
+			res = true
+			allowed := map[*ast.Ident]bool{}
+			ast.Inspect(f, func(n ast.Node) bool {
+				switch s := n.(type) {
+				case *ast.IncDecStmt:
+					if i, ok := ast.Unparen(s.X).(*ast.Ident); ok {
+						allowed[i] = true
+					}
+				case *ast.AssignStmt:
+					blank := true
+					for _, l := range s.Lhs {
+						if i, ok := l.(*ast.Ident); !ok || i.Name != "_" {
+							blank = false
+						}
+					}
+					if blank {
+						for _, r := range s.Rhs {
+							if i, ok := ast.Unparen(r).(*ast.Ident); ok {
+								allowed[i] = true
+							}
+						}
+					}
+				}
+				return true
+			})
+			ast.Inspect(f, func(n ast.Node) bool {
+				if i, ok := n.(*ast.Ident); ok && x.info.Uses[i] == obj && !allowed[i] {
+					res = false
+				}
+				return true
+			})
+		}
+	}
+	x.neverReadMemo[obj] = res
+	return res
 }
